@@ -20,3 +20,5 @@ open Martian.Props.C06
 #print axioms two_steps_are_cert
 #print axioms subsecond_validity_born_expired
 #print axioms bracketed_v6_without_port
+#print axioms facts_lock_discipline
+#print axioms facts_defaults
